@@ -2,6 +2,7 @@
 # run every registered check once (tier from $1, default quick); summary at the end
 cd "$(dirname "$0")/.."
 tier="${1:-quick}"
+mkdir -p build
 for i in $(seq -w 1 20); do
   ./check C$i --tier "$tier" > build/run_C$i.log 2>&1; rc=$?
   echo "C$i rc=$rc $(tail -1 build/run_C$i.log | cut -c1-160)"
